@@ -122,7 +122,12 @@ def r2(run):
     t_targets = [t for (_, t, _) in t_edges]
     in_branch = b.reachable_blocks(t_targets)
     # non-zero context => Err before any effect
-    zs = [(bb, z, nz) for (bb, z, nz) in zero_ctx_switches(b) if bb in in_branch]
+    from .store_shared import store_points
+    after_store = set()
+    for (c0, es) in store_points(b):
+        after_store |= b.reachable_blocks([c0.bb])
+    # the admission test comes before anything is stored (a spliced writer has its own, later, zero-context test for the registry)
+    zs = [(bb, z, nz) for (bb, z, nz) in zero_ctx_switches(b) if bb in in_branch and bb not in after_store]
     run.ob("%s|registration|zero-context-test" % C.APPEND, bool(zs), b.sp, "the registration branch compares frame.context_id with ZERO_CONTEXT", reason="mechanism-not-found")
     for (bb, z, nz) in zs:
         reach = b.reachable_blocks([t for (_, t, _) in nz])
